@@ -95,7 +95,7 @@ def parse_reports(text):
 
 def gen_rounds(rng, tier):
     if tier == "quick":
-        n, ms = 8, 9000
+        n, ms = 6, 7000
     else:
         n, ms = 44, 11000
     rounds = []
@@ -114,7 +114,7 @@ def gen_rounds(rng, tier):
     return rounds
 
 
-PARALLEL = 2
+PARALLEL = 3
 
 KNOWN_CRASHES = [
     # (regex on the panic output, what it is): crashes that belong to other properties
